@@ -8,7 +8,7 @@
       about them are C28's theorems. *)
 From Coq Require Import ZArith Reals Lra Lia Psatz Nsatz List.
 From Coquelicot Require Import Coquelicot.
-Require Import Num Vec Tactics rot_gen C28_Defs C28_Proofs Tree C05_Model C05_Rot C05_Jet C05_Proofs C03_Model.
+Require Import Num Vec Tactics rot_gen C28_Defs C28_Proofs Tree MB Spatial C05_Model C05_Rot C05_Jet C05_Proofs C03_Model.
 Local Open Scope R_scope.
 
 Ltac d3v v := destruct v as [[? ?] ?].
@@ -46,6 +46,25 @@ Proof. intros RP RF RM HP HM.
   assert (R2 : is_rot (fst (xf_compose ROps (xf_compose ROps (XGP 0) XPF) (XFM 0)))) by (cbn [xf_compose fst]; repeat apply rot_mul; auto).
   pose proof (moves_compose (fun t => xf_compose ROps (xf_compose ROps (XGP t) XPF) (XFM t)) (fun _ => XMB) _ _ R2 H2 (moves_const XMB)) as H3.
   cbv beta in H3. rewrite vel_step_is_compose in H3 by (apply rot_mul; auto). exact H3. Qed.
+
+(** ** the velocity step is the row of the tree recursion of Lib/MB.v (the operators of C01/C04):
+    V_GB = phiT(l) V_GP + sum_i u_i H_PB_G,i  with l = p_GB - p_GP and H_PB_G,i = toG(H_FM,i) *)
+Definition toG (X0 XPF F0 XMB : Transform R) (h : SpatialVec R) : SpatialVec R :=
+  let RGF := m33_mul ROps (fst X0) (fst XPF) in let r := m33_mulv ROps (fst F0) (snd XMB) in
+  (m33_mulv ROps RGF (fst h), m33_mulv ROps RGF (v3_add ROps (snd h) (v3_cross ROps (fst h) r))).
+Lemma toG_linear X0 XPF F0 XMB H u :
+  toG X0 XPF F0 XMB (Hu ROps H u) = MB.Hmul (svK ROps) (map (toG X0 XPF F0 XMB) H) u.
+Proof. revert u. induction H as [|h H IH]; intros [|x u]; cbn [Hu map MB.Hmul];
+  try (unfold toG; cbv [MB.vzero svK]; destruct X0 as [A a]; destruct XPF as [B b]; destruct F0 as [C c]; destruct XMB as [D d]; cbn [fst snd];
+       generalize (m33_mul ROps A B) (m33_mulv ROps C d); intros G r; d33 G; d3v r; cunf; teq; ring).
+  rewrite <- IH. unfold toG. cbv [MB.vadd MB.vscale svK]. destruct X0 as [A a]; destruct XPF as [B b]; destruct F0 as [C c]; destruct XMB as [D d]; cbn [fst snd].
+  generalize (m33_mul ROps A B) (m33_mulv ROps C d) (Hu ROps H u). intros G r [y z]. destruct h as [hw hv].
+  d33 G; d3v r; d3v y; d3v z; d3v hw; d3v hv. cunf. teq; ring. Qed.
+Theorem vel_step_is_MB_recursion X0 VGP XPF F0 XMB H u :
+  vel_step ROps X0 VGP XPF F0 XMB (Hu ROps H u) =
+  MB.vadd (svK ROps) (MB.phiT (svK ROps) (v3_sub ROps (snd (pose_step ROps X0 XPF F0 XMB)) (snd X0)) VGP)
+                     (MB.Hmul (svK ROps) (map (toG X0 XPF F0 XMB) H) u).
+Proof. rewrite <- toG_linear. unfold vel_step, toG. cbv [MB.vadd MB.phiT svK shiftVel sv_add]. cbn [fst snd]. reflexivity. Qed.
 
 (** ** every tree *)
 Record tjoint := mkTJ { t_XPF : Transform R; t_XMB : Transform R; t_X : R -> Transform R; t_V : SpatialVec R }.
